@@ -129,6 +129,9 @@ pub fn all_ops(names: &[&str]) -> Vec<Op> {
         Op::SetFn("len".into()),
         Op::SetFnConst("f".into()),
         Op::SetFnConst("typeof".into()),
+        // a function named like a variable: separate namespaces, also for the clears
+        Op::SetFn("a".into()),
+        Op::SetFnConst("b".into()),
         Op::CloneFrom,
         Op::Toggle(true),
         Op::Toggle(false),
@@ -324,7 +327,7 @@ pub fn check_state(live: &Live, names: &[&str], report: &mut dyn FnMut(&str, Str
         report("state/iter_variable_names", format!("{:?}", names_exp), format!("{:?}", names_got));
     }
     // function lookup
-    for f in ["f", "g", "h", "typeof", "len", "stale_fn"] {
+    for f in ["f", "g", "h", "typeof", "len", "stale_fn", "a", "b"] {
         let r = c.call_function(f, &Value::Int(7));
         let want = match m.funs.get(f) {
             Some(FnModel::Identity) => Some(7),
@@ -343,6 +346,16 @@ pub fn check_state(live: &Live, names: &[&str], report: &mut dyn FnMut(&str, Str
     // builtin switch, directly and by its effect
     if c.are_builtin_functions_disabled() != m.builtins_off {
         report("state/builtin-switch", format!("disabled = {}", m.builtins_off), format!("disabled = {}", c.are_builtin_functions_disabled()));
+    }
+    // names nobody bound are unknown — also names a library might be tempted to pre-define
+    for k in ["PI", "E", "pi", "e", "math::PI", "math::pi", "math::E", "math::e", "math::TAU", "math::SQRT_2", "math::LN_2", "inf", "nan", "NaN", "null", "none", "_"] {
+        if m.vars.contains_key(k) {
+            continue;
+        }
+        let g = api::eval_str(k, c);
+        if !matches!(&g, Got::Err(ErrClass::UnknownVar(n), _) if n == k) {
+            report("state/unbound-name-resolves", format!("{} is an unknown variable", k), g.show());
+        }
     }
     // a user function (identity) named typeof takes precedence; else the builtin unless disabled
     let t = api::eval_str("typeof(1)", c);
